@@ -208,6 +208,45 @@ func c05Run(in []string) []string {
 			dagi.Index = index
 			vu.Stat("restart_index")
 			out = "r" + strconv.Itoa(lost)
+		case "RS":
+			// Reset of the EXISTING Index object (as abft does at an epoch switch / as an application reusing the
+			// object): op[1] = 1: onto a new empty DB (all events forgotten), 0: onto the same DB (unflushed events
+			// lost); op[2..] = the new weight table (same validator ids, still descending).  Index.Reset must
+			// purge the ForklessCause, HighestBefore and LowestAfter caches itself.
+			if len(op) != 2+nv {
+				break
+			}
+			b2 := pos.NewBuilder()
+			for i := 0; i < nv; i++ {
+				w, _ := strconv.ParseUint(op[2+i], 10, 32)
+				b2.Set(idx.ValidatorID(i+1), pos.Weight(w))
+			}
+			vals2 := b2.Build()
+			okOrder := true
+			for i := 0; i < nv; i++ {
+				if vals2.GetIdx(idx.ValidatorID(i+1)) != idx.Validator(i) {
+					okOrder = false
+				}
+			}
+			if !okOrder {
+				out = "BADORDER"
+				break
+			}
+			lost := len(order) - flushedLen
+			if op[1] == "1" {
+				lost = len(order)
+				db = memorydb.New()
+				flushedLen = 0
+			}
+			for _, id := range order[flushedLen:] {
+				delete(events, c05ID(id))
+				delete(num, c05ID(id))
+			}
+			order = order[:flushedLen]
+			vals = vals2
+			index.Reset(vals, db, getEvent)
+			vu.Stat("reset_same_object")
+			out = "s" + strconv.Itoa(lost)
 		case "DB":
 			// the bytes in the persistent store for the last k flushed events: tables S (HighestBefore),
 			// s (LowestAfter), b (EventBranch); key = table prefix ++ 32-byte event id
@@ -788,6 +827,64 @@ func init() {
 					}
 					in := c05Header(d, c05FcSizes[r.Intn(len(c05FcSizes))], c05VcSizes[r.Intn(len(c05VcSizes))], 0, mal)
 					k := 6 + r.Intn(7)
+					if mal == 0 && r.Intn(6) == 0 {
+						// REUSE of the same Index object: index a prefix (the tail unflushed), query, Reset (same DB with
+						// another weight table, or a new DB), re-add with the same ids - one lost unflushed event is
+						// REPLACED by a variant with the same id/creator/seq but fewer parents - and query again
+						cut := len(order) * (40 + r.Intn(40)) / 100
+						if cut < 2 {
+							cut = 2
+						}
+						tail := 1 + r.Intn(4)
+						if tail > cut-1 {
+							tail = cut - 1
+						}
+						for j := 0; j < cut; j++ {
+							op := c05EvOp(order[j])
+							if j >= cut-tail {
+								op[1] = "A"
+							}
+							in = append(in, op...)
+						}
+						in = append(in, ";", "Q", "0", "0")
+						if r.Intn(4) == 0 {
+							in = append(in, ";", "D")
+						}
+						fresh := r.Intn(3) == 0
+						rs := func() {
+							w2 := c05Weights(r, d.nv)
+							in = append(in, ";", "RS", vu.B(fresh))
+							for _, w := range w2 {
+								in = append(in, strconv.FormatUint(uint64(w), 10))
+							}
+						}
+						rs()
+						if r.Intn(4) == 0 {
+							rs() // two Resets in a row
+						}
+						in = append(in, ";", "Q", "0", "0", ";", "M", "0")
+						from := cut - tail
+						if fresh {
+							from = 0
+						}
+						variant := cut - tail + r.Intn(tail)
+						for j := from; j < len(order); j++ {
+							e := order[j]
+							if j == variant && e.seq > 1 && len(e.parents) > 1 {
+								e.parents = e.parents[:1+r.Intn(len(e.parents)-1)] // same id, creator, seq; fewer parents
+								vu.Stat("replaced_event_variant")
+							}
+							in = append(in, c05EvOp(e)...)
+							if j < cut+3 || j%5 == 0 {
+								in = append(in, ";", "Q", "0", strconv.Itoa(r.Intn(2)))
+							}
+						}
+						in = append(in, ";", "Q", "0", "0", ";", "V", "0", ";", "M", "0", ";", "DB", "3")
+						emit(in...)
+						i++
+						vu.Stat("scenario_reset_reuse")
+						continue
+					}
 					if mal == 0 && r.Intn(5) == 0 {
 						// Flush / DropNotFlushed style: Adds without Flush, explicit F, and D followed by
 						// re-adding the dropped events (as a caller retrying after a failure would)
